@@ -789,9 +789,19 @@ def r4_lookups_first(run, w):
   sorts = [c for c in calls_in(fn.node.body) if dotted(c.func) == "sorted"]
   sort_stmts = [(n, c) for (n, c, nm) in fn.calls()
                 if isinstance(c.func, ast.Attribute) and c.func.attr == "sort"]
-  if len(sorts) != 1 or sort_stmts:
-    raise AnalysisError("_make_sorted_work_items: expected one sorted(...) call")
-  s = sorts[0]
+  if len(sorts) + len(sort_stmts) != 1:
+    raise AnalysisError("_make_sorted_work_items: expected one sorted(...) call (or one in-place "
+                        "<list>.sort(...))")
+  in_place = None
+  if sort_stmts:
+    # <l> = list(<nodes>); <l>.sort(key=..., reverse=...)
+    sort_node, s = sort_stmts[0]
+    if not (isinstance(s.func.value, ast.Name) and sort_node.kind == "stmt" and
+            isinstance(sort_node.stmt, ast.Expr) and sort_node.stmt.value is s and not s.args):
+      raise AnalysisError("_make_sorted_work_items: in-place sort of something other than a local")
+    in_place = s.func.value.id
+  else:
+    s = sorts[0]
   key = kwarg(s, "key")
   rev = kwarg(s, "reverse")
   kf = _key_function(fn, ex, key) if key is not None else None
@@ -817,9 +827,20 @@ def r4_lookups_first(run, w):
   lookup_key = (not True) if neg else True          # key value of a lookup node
   lookups_last_in_list = (lookup_key is True) != reverse   # ascending: True last; reversed: False last
   # the returned list preserves the sorted order
-  def is_sorted_result(e, nid):
-    e = value_at(fn, cfg, du, nid, e) if isinstance(e, ast.Name) else e
-    return e is s or (isinstance(e, ast.Call) and text(e) == text(ex.expand(s)))
+  def from_sorted(it, at):
+    """Is iterable `it`, evaluated at node `at`, the sorted sequence (in its sorted order)?"""
+    if in_place is not None:
+      if not (isinstance(it, ast.Name) and it.id == in_place):
+        return False
+      reb = du.writers(in_place) - {sort_node.id}
+      between = cfg.reach_after({sort_node.id}, removed={at}) & \
+          cfg.reach({at}, removed={sort_node.id}, forward=False)
+      return cfg.dominated_by(at, {sort_node.id}) and not (between & reb)
+    if isinstance(it, ast.Name):
+      rd = reaching_defs(cfg, du, at, it.id)
+      return len(rd) == 1 and isinstance(cfg.nodes[next(iter(rd))].stmt, ast.Assign) and \
+          cfg.nodes[next(iter(rd))].stmt.value is s
+    return text(it) in (text(s), text(ex.expand(s)))
   built_in_order = None
   for (n, r, v) in returns_of(fn):
     if v is None:
@@ -830,25 +851,14 @@ def r4_lookups_first(run, w):
       comp = v if isinstance(v, (ast.ListComp, ast.GeneratorExp)) else v.args[0]
       if len(comp.generators) == 1:
         g = comp.generators[0]
-        it = g.iter
-        src_ok = text(it) == text(ex.expand(s))
-        if isinstance(it, ast.Name):
-          rd = reaching_defs(cfg, du, n.id, it.id)
-          src_ok = len(rd) == 1 and isinstance(cfg.nodes[next(iter(rd))].stmt, ast.Assign) and \
-              cfg.nodes[next(iter(rd))].stmt.value is s
-        built_in_order = bool(src_ok) and not g.ifs
+        built_in_order = from_sorted(g.iter, n.id) and not g.ifs
         continue
     bl = built_list(fn, cfg, du, n.id, r.value.id) if isinstance(r.value, ast.Name) else None
     if bl is not None:
       # <out> = []; for <n> in <sorted>: <out>.append(WorkItem(<n>, ...)); return <out>
       elt, tgt, it, lp = bl
       hd = next(iter(nodes_for(cfg, lp)))
-      src_ok = text(it) == text(s)
-      if isinstance(it, ast.Name):
-        rd = reaching_defs(cfg, du, hd, it.id)
-        src_ok = len(rd) == 1 and isinstance(cfg.nodes[next(iter(rd))].stmt, ast.Assign) and \
-            cfg.nodes[next(iter(rd))].stmt.value is s
-      built_in_order = bool(src_ok)
+      built_in_order = from_sorted(it, hd)
       continue
     raise AnalysisError("_make_sorted_work_items: cannot follow how the returned list is built "
                         "(`%s`)" % short(v))
@@ -860,6 +870,11 @@ def r4_lookups_first(run, w):
          witness=None if lookups_last_in_list else "lookup nodes sort to the front of the list, "
          "which the LIFO scheduler reaches last")
   srt_in = s.args[0] if s.args else kwarg(s, "iterable")
+  if in_place is not None:
+    rd = reaching_defs(cfg, du, sort_node.id, in_place)
+    srt_in = None
+    if len(rd) == 1 and isinstance(cfg.nodes[next(iter(rd))].stmt, ast.Assign):
+      srt_in = strip_wrappers(cfg.nodes[next(iter(rd))].stmt.value, names=("list",))
   run.ob(R4, fn.qualname, "sorted(<the nodes handed in>, ...)",
          "every node handed in is scheduled (no filtering)",
          srt_in is not None and ex.norm(srt_in) == p, fi=fn.fi, node=s, nontrivial=False)
